@@ -2,6 +2,7 @@
 Ops: subnet N q count|- limit ; supernet N q ; next N k ; prev N k ; iadd N k ; isub N k ; hosts N limit"""
 import itertools
 from common import Case, W, value_classes, rand_value, errname, plist, tf, optint
+import common
 from netaddr import IPNetwork
 
 ID = 'C11'
@@ -117,7 +118,7 @@ def _show(n):
 def impl(c):
     a = c.args
     kind, ver, v, p = a[:4]
-    n = IPNetwork((v, p), version=ver)
+    n = common.make_net(ver, v, p)
     if kind == 'subnet':
         q, cnt, limit = a[4:]
         try:
@@ -138,12 +139,14 @@ def impl(c):
             s = '!' + errname(e)
         return s + '~' + _show(n)
     if kind in ('iadd', 'isub'):
+        common.exercise(n)      # hash / == / key() before the move: anything memoised must follow the move
         try:
             if kind == 'iadd':
                 n += a[4]
             else:
                 n -= a[4]
-            return _show(n)
+            st = common.stale(n)
+            return _show(n) if st is None else "!harness:stale-%s~%s" % (st, _show(n))
         except Exception as e:
             return '!' + errname(e) + '~' + _show(n)
     if kind == 'hosts':
